@@ -73,7 +73,12 @@ func runPipelined(c hCase, ls hRun) ([]byte, string) {
 		}
 		if s.TLS {
 			flush()
-			if st := w.WaitQuiet(); st != harness.QIdle {
+			st := w.WaitQuiet()
+			for i := 0; st == harness.QGate && i < 64; i++ {
+				r.B.ReleaseArrived()
+				st = w.WaitQuiet()
+			}
+			if st != harness.QIdle {
 				w.Finish()
 				return nil, "pipelined run: server not idle before the TLS handshake: " + st
 			}
@@ -82,13 +87,26 @@ func runPipelined(c hCase, ls hRun) ([]byte, string) {
 				w.Finish()
 				return nil, "pipelined run: TLS handshake: " + err.Error()
 			}
-			if st := w.WaitQuiet(); st != harness.QIdle {
+			st = w.WaitQuiet()
+			for i := 0; st == harness.QGate && i < 64; i++ {
+				r.B.ReleaseArrived()
+				st = w.WaitQuiet()
+			}
+			if st != harness.QIdle {
 				w.Finish()
 				return nil, "pipelined run: server not idle after the TLS handshake: " + st
 			}
 		}
 	}
 	flush()
+	// parked deliveries are released whenever the command loop waits for them
+	for i := 0; i < 64; i++ {
+		st := w.WaitQuiet()
+		if st != harness.QGate {
+			break
+		}
+		r.B.ReleaseArrived()
+	}
 	_, fin := w.Finish()
 	if !fin {
 		return nil, "pipelined run: watchdog while finishing"
@@ -210,6 +228,9 @@ func c04SchedRun(c c04SchedCase) Verdict {
 	script := harness.Script{}
 	for k, tx := range c.Txns {
 		p := harness.DataPlan{Read: harness.ReadPlan{Limit: -1}, Result: tx.Verdict, Honest: !tx.Early, GatePre: tx.Gate == "pre", GatePost: tx.Gate == "post"}
+		if tx.Gate == "start" {
+			script.GateStart = true
+		}
 		_ = k
 		script.Data = append(script.Data, p)
 	}
@@ -403,7 +424,7 @@ func TestC04(t *testing.T) {
 		c := c04SchedCase{LMTP: rapid.Bool().Draw(rt, "lmtp")}
 		n := rapid.IntRange(2, 3).Draw(rt, "ntxn")
 		for k := 0; k < n; k++ {
-			tx := c04Txn{Chunks: rapid.IntRange(1, 3).Draw(rt, "chunks"), Gate: rapid.SampledFrom([]string{"", "pre", "post"}).Draw(rt, "gate")}
+			tx := c04Txn{Chunks: rapid.IntRange(1, 3).Draw(rt, "chunks"), Gate: rapid.SampledFrom([]string{"", "pre", "post", "start"}).Draw(rt, "gate")}
 			if k < n-1 {
 				tx.Abort = rapid.SampledFrom([]string{"RSET", "EHLO", "RSET"}).Draw(rt, "abort")
 				tx.Early = rapid.Bool().Draw(rt, "early")
